@@ -189,6 +189,30 @@ def corr_D(run, configs, rotors, preps, poison=0.0):
     return b.flush() + b2.flush() + b3.flush()
 
 
+def corr_Dloop(run, configs, rotor_lists, preps, poison=0.0):
+    """the GENERATED `for i_R in range(...)` loop of Wigner.D (Gen.Wigner_D_loop) against the real vectorised call, one workspace
+    threaded through all rotors.  rotor_lists: [(label, [R, ...])]"""
+    import spherical
+    import quaternionic
+    h = helpers()
+    b = Batch(run, "Wigner.D-generated-loop")
+    for (L, ellmin) in configs:
+        w = spherical.Wigner(L, ellmin)
+        for lab, Rs in rotor_lists:
+            if any(preps.get(R) is None for R in Rs):
+                continue
+            ws = w.new_workspace()
+            ws[:] = poison
+            D = w.D(quaternionic.array(np.array(Rs, dtype=float)), workspace=ws)
+            table = []
+            for R in Rs:
+                for zz in (preps[R]["za_rot"], preps[R]["zg_rot"]):
+                    table += [fbits(zz.real), fbits(zz.imag), fbits(h["imsqrt"](zz))]
+            b.add(f"methDloop {L} {ellmin} {len(Rs)} {fbits(poison)} " + " ".join(fbits(x) for R in Rs for x in R) + " " + " ".join(table),
+                  arr_bits(D), {"L": L, "ell_min": ellmin, "Rs": Rs, "stratum": lab, "model": "generated-loop"}, lab)
+    return b.flush()
+
+
 def corr_Y(run, configs, rotors, preps, spins=None, poison=0.0):
     """configs: [(L, P, ellmin)]"""
     import spherical
